@@ -48,6 +48,8 @@ class Flow:
         self.cfg = CFG.of_function(fi.node)
         self._memo: Dict[Tuple[int, int], List[Tuple[str, Tuple[str, ...]]]] = {}
         self._locals = None
+        self._stores = None
+        self.follow_stores = False
 
     # ------------------------------------------------------------- helpers
     def stmt_of(self, node):
@@ -114,9 +116,16 @@ class Flow:
         _seen = _seen if _seen is not None else set()
         return self._lp(expr, at_stmt, (), _seen, 0)
 
-    def atoms(self, expr, at=None) -> Set[str]:
+    def atoms(self, expr, at=None, stores: bool = False) -> Set[str]:
+        """stores=True also follows values put into locally built containers (X[k] = v, X.append(v), …)."""
         out: Set[str] = set()
-        for leaf, ops in self.leaf_paths(expr, at):
+        old = self.follow_stores
+        self.follow_stores = stores
+        try:
+            paths = self.leaf_paths(expr, at)
+        finally:
+            self.follow_stores = old
+        for leaf, ops in paths:
             out.add(leaf)
             out.update(ops)
         return out
@@ -298,7 +307,33 @@ class Flow:
             seen2 = seen | {key}
             s = self.cfg.stmt[d]
             out += self._def_paths(s, name, ops, seen2, depth)
+        # values put into a locally built container: X[k] = v, X.append(v), X.update(v) … (flow-insensitive)
+        for (st, val) in (self._container_stores().get(name, ()) if self.follow_stores else ()):
+            key = ('store', id(st), name)
+            if key in seen:
+                continue
+            out += self._lp(val, st, ('op:stored',) + ops, seen | {key}, depth + 1)
         return out
+
+    def _container_stores(self):
+        if self._stores is None:
+            table = {}
+            for st in self.cfg.stmt.values():
+                from .cfg import header_exprs
+                if isinstance(st, (ast.Assign, ast.AugAssign)):
+                    for t in (st.targets if isinstance(st, ast.Assign) else [st.target]):
+                        if isinstance(t, ast.Subscript) and isinstance(t.value, ast.Name):
+                            table.setdefault(t.value.id, []).append((st, st.value))
+                            if not isinstance(t.slice, ast.Constant):
+                                table.setdefault(t.value.id, []).append((st, t.slice))
+                for h in header_exprs(st):
+                    for n in ast.walk(h):
+                        if isinstance(n, ast.Call) and isinstance(n.func, ast.Attribute) and isinstance(n.func.value, ast.Name) \
+                                and n.func.attr in ('append', 'add', 'update', 'extend', 'setdefault', 'insert'):
+                            for a in n.args:
+                                table.setdefault(n.func.value.id, []).append((st, a))
+            self._stores = table
+        return self._stores
 
     def _def_paths(self, s, name, ops, seen, depth):
         if isinstance(s, ast.Assign):
